@@ -115,9 +115,42 @@ json generate(uint64_t seed, uint64_t idx, int tier)
 		}
 		const json &inner = schema["opts"].back()["sub"];
 		std::vector<std::vector<OptRef>> refs = {collect_opts(r, inner), collect_opts(r, inner)};
+		std::vector<std::string> ipaths; // schema paths inside an instance, for callback registration through the instance
+		for_each_opt(inner, [&](const std::vector<std::string> &path, const json &o) {
+			std::string p;
+			for (auto &x : path)
+				p += x + "|";
+			ipaths.push_back(p + o["n"].get<std::string>());
+		});
 		int n = (int)r.range(3, maxops);
 		for (int i = 0; i < n; i++) {
 			int cl = (int)r.below(2);
+			unsigned k = (unsigned)r.below(100);
+			if (k < 15 && !ipaths.empty()) {
+				// callbacks registered through one instance must stay private to it
+				json s = step(cl, r.chance(2, 3) ? "setvalidate" : "setprintfunc", 0);
+				s["at"] = json::array({json::array({"inst", cl})});
+				s["name"] = r.pick(ipaths);
+				s["owner"] = 0;
+				steps.push_back(s);
+				continue;
+			}
+			if (k < 40) {
+				// the party re-writes its own instance from a text (parsed at the root: the titled instance is re-created in place)
+				TextGen tg;
+				tg.max_items = 4;
+				tg.ctx_flags = flags;
+				tg.comments = 0;
+				tg.multiline = false;
+				std::vector<Chunk> body = gen_text(r, inner, tg);
+				Chunk whole;
+				whole.t = std::string("inst \"") + (cl == 0 ? "A" : "B") + "\" {\n" + chunks_text(body) + "}\n";
+				json p = step(cl, "parse", 0);
+				p["src"] = {{"kind", "buf"}, {"chunks", chunks_to_json({whole})}};
+				p["owner"] = 0;
+				steps.push_back(p);
+				continue;
+			}
 			json s = gen_api_step(r, cl, 0, refs[cl], ag);
 			json at = json::array({json::array({"inst", cl})});
 			if (s.contains("at"))
@@ -207,6 +240,17 @@ JudgeOut judge(const json &plan)
 					break;
 				}
 			} else {
+				if (o.cbs != so_.cbs) {
+					std::string a, b;
+					for (auto &c : o.cbs)
+						a += c + "; ";
+					for (auto &c : so_.cbs)
+						b += c + "; ";
+					out.viol.push_back({"O-solo:instances:callbacks:" + o.op, "instance " + std::to_string(cl) + " step #" + std::to_string(o.index) + " (" + o.op + "): the callbacks invoked differ from the run in which only this instance was touched: a callback registered through the sibling instance is shared\n  interleaved: " +
+														  a.substr(0, 400) + "\n  solo:        " + b.substr(0, 400),
+							    nullptr});
+					break;
+				}
 				if (o.skipped != so_.skipped || o.ret != so_.ret) {
 					out.viol.push_back({"O-solo:instances:ret:" + o.op, "instance " + std::to_string(cl) + " step #" + std::to_string(o.index) + " (" + o.op + ") returns " + std::to_string(o.ret) + " interleaved but " + std::to_string(so_.ret) + " solo", nullptr});
 					break;
